@@ -12,6 +12,12 @@
 //	q <c|m|C|r> <all|a|b|t|n|y|z|p<prefixhex>> <limit> <continuehex|->
 //	    Query{constraint: Permanode{} | tag=a | tag=b | CamliType:permanode | and(tag=a, tag=b), Sort: CreatedDesc|LastModifiedDesc|CreatedAsc|BlobRefAsc, Limit, Continue}
 //	    Answer: "ok <i,j,…|-> <continuehex|->" (indices in pn order, "?" for an unknown ref), "err" or "panic".
+//	qr … / arr …
+//	    the same requests as q / ar, but issued with ONE long-lived Go *SearchQuery (and *Constraint tree)
+//	    per (sort, constraint): only Limit / Continue / Around are changed between calls, nothing is
+//	    cloned.  The answer must be the one of q / ar; it is prefixed with "caller-state-mutated " when
+//	    Handler.Query left the caller's value different from what it was given (JSON and every exported
+//	    field, also those tagged json:"-").
 //	cc <pnidx> <fkey> <claimdate> <ft|none>
 //	    the claim camliContent=<file fkey> on permanode <pnidx>; the file (one chunk, unixMtime=<ft>) is
 //	    NOT given to the index yet.  Answer: the permanode's "ok <anytime> <modtime>".
@@ -52,6 +58,8 @@ type world struct {
 	pos    map[blob.Ref]int
 	hasCC  map[int]bool
 	files  map[string]*fileSpec
+	// reuse: the caller-owned query values of the "qr"/"arr" ops
+	reuse map[string]*search.SearchQuery
 }
 
 // fileSpec is a declared content file: the file schema blob (and its one chunk) is only handed to
@@ -83,7 +91,7 @@ func newWorld() *world {
 	h := search.NewHandler(idx, owner)
 	h.SetCorpus(corpus)
 	search.VerifSetCandSourceHook(func(name string) { LastSource = name })
-	return &world{idx: idx, corpus: corpus, id: id, h: h, pos: map[blob.Ref]int{}, hasCC: map[int]bool{}, files: map[string]*fileSpec{}}
+	return &world{idx: idx, corpus: corpus, id: id, h: h, pos: map[blob.Ref]int{}, hasCC: map[int]bool{}, files: map[string]*fileSpec{}, reuse: map[string]*search.SearchQuery{}}
 }
 
 var (
@@ -307,7 +315,8 @@ func (w *world) RefOfKey(key string) blob.Ref {
 }
 
 func (w *world) query(words []string) string {
-	around := words[0] == "ar"
+	around := words[0] == "ar" || words[0] == "arr"
+	reuse := words[0] == "qr" || words[0] == "arr"
 	if (!around && len(words) != 5) || (around && len(words) != 5 && len(words) != 6) {
 		return "bad-op"
 	}
@@ -379,11 +388,33 @@ func (w *world) query(words []string) string {
 		}
 		q.Continue = string(cb)
 	}
-	res, qerr := w.h.Query(ctxbg, q)
+	prefix := ""
+	var res *search.SearchResult
+	var qerr error
+	if reuse {
+		// the caller keeps ONE *SearchQuery (and its *Constraint tree) per (sort, constraint) and only
+		// changes Limit / Continue / Around between calls – nothing is cloned
+		key := words[1] + "|" + words[2]
+		cq := w.reuse[key]
+		if cq == nil {
+			cq = q
+			w.reuse[key] = cq
+		} else {
+			cq.Limit, cq.Continue, cq.Around = q.Limit, q.Continue, q.Around
+		}
+		before := callerState(cq)
+		res, qerr = w.h.Query(ctxbg, cq)
+		if callerState(cq) != before {
+			prefix = "caller-state-mutated "
+		}
+	} else {
+		res, qerr = w.h.Query(ctxbg, q)
+	}
 	if qerr != nil {
-		return "err"
+		return prefix + "err"
 	}
 	var sb strings.Builder
+	sb.WriteString(prefix)
 	sb.WriteString("ok ")
 	if len(res.Blobs) == 0 {
 		sb.WriteString("-")
@@ -412,7 +443,7 @@ func NewExec() func(w []string) string {
 				return "bad-op"
 			}
 			switch words[0] {
-			case "pn", "q", "ar", "cc", "file":
+			case "pn", "q", "ar", "qr", "arr", "cc", "file":
 			default:
 				return "bad-op"
 			}
